@@ -710,6 +710,113 @@ def r17e(rep, F):
     rep.require_count('R17e', 'abstract recordPath runs', runs, 4)
 
 
+def r17j(rep, F):
+    rep.rule('R17j', 'findBetterGoal snaps its sample point consistently: the statements that compute (startIndex, endIndex) from the bracketing '
+                     'vertices (start, end) and the two snap tests are interpreted for all four outcomes of the tests; obligation: no snap -> '
+                     '(start, end); snap to the start only -> (start, start); to the end only -> (end, end); both (a segment shorter than two '
+                     'thresholds) -> startIndex == endIndex.  In every case startIndex <= endIndex: a swapped pair overwrites the vertex at the '
+                     'start of the segment with an interior point and truncates the path behind it -- a motion nobody validated')
+    fs = [f for f in F.by_name.get(G + 'PathSimplifier::findBetterGoal', []) if 'PlannerTerminationCondition' in f.sig and f.body]
+    if not fs:
+        raise AnalysisBroken('R17j: findBetterGoal vanished')
+    f = fs[0]
+    decl = {}
+    for ds in [x for x in f.walk() if x['k'] == 'DeclStmt']:
+        for d in ds.get('decls', []):
+            if d['name'] in ('startIndex', 'endIndex'):
+                decl[d['name']] = (ds, d)
+    if len(decl) != 2:
+        raise AnalysisBroken('R17j: startIndex / endIndex not found')
+    blk = next((a for a in f.ancestors(decl['startIndex'][0]['id']) if a['k'] == 'CompoundStmt'), None)
+    first_use = min(f.line(x) for x in f.walk() if x['k'] in ('ArraySubscriptExpr', 'CXXOperatorCallExpr') and
+                    any(y['k'] == 'DeclRefExpr' and y.get('name') in ('startIndex', 'endIndex') for y in f.walk(x['ch'][-1])) and
+                    f.line(x) > max(f.line(decl['startIndex'][0]), f.line(decl['endIndex'][0])))
+    S, E = 3, 4
+
+    def ev(nid, env):
+        n = f.strip(nid)
+        if n is None:
+            raise AnalysisBroken('R17j: empty expression')
+        k = n['k']
+        fp = re.sub(r'#\d+', '', f.fp(n['id']))
+        if k == 'BinaryOperator' and n.get('op') in ('<', '<=', '>', '>=') and 'threshold' in fp:
+            if 'operator*(start)' in fp:
+                return env['c1']
+            if 'operator*(end)' in fp:
+                return env['c2']
+        if k == 'DeclRefExpr':
+            nm = n.get('name')
+            if nm in env:
+                return env[nm]
+            if nm == 'start':
+                return ('it', S)
+            if nm == 'end':
+                return ('it', E)
+            raise AnalysisBroken('R17j: unknown variable %s in the snap block' % nm)
+        if k == 'IntegerLiteral':
+            return int(n.get('v'))
+        if k == 'CXXBoolLiteralExpr':
+            return n.get('v') in (True, 'true', 1)
+        if k == 'ConditionalOperator':
+            return ev(n['ch'][1], env) if ev(n['ch'][0], env) else ev(n['ch'][2], env)
+        if k == 'UnaryOperator' and n.get('op') == '!':
+            return not ev(n['ch'][0], env)
+        if k == 'BinaryOperator' and n.get('op') in ('&&', '||'):
+            a = ev(n['ch'][0], env)
+            return (a and ev(n['ch'][1], env)) if n['op'] == '&&' else (a or ev(n['ch'][1], env))
+        if k == 'BinaryOperator' and n.get('op') in ('==', '!=', '<', '<=', '>', '>=', '+', '-'):
+            a, b = ev(n['ch'][0], env), ev(n['ch'][1], env)
+            a = a[1] if isinstance(a, tuple) else a
+            b = b[1] if isinstance(b, tuple) else b
+            return {'==': a == b, '!=': a != b, '<': a < b, '<=': a <= b, '>': a > b, '>=': a >= b, '+': a + b, '-': a - b}[n['op']]
+        if (n.get('oop') == '-' or (n.get('callee') or '').endswith('operator-')) and 'begin(dists)' in fp:
+            a = ev(n['ch'][0], env)
+            return a[1] if isinstance(a, tuple) else a
+        if (n.get('callee') or '').endswith('::begin'):
+            return 0
+        raise AnalysisBroken('R17j: %s outside the interpreted fragment of the snap block' % k)
+
+    def run(stmts, env):
+        for sid in stmts:
+            st = f.nodes.get(sid)
+            if st is None or f.line(st) >= first_use:
+                continue
+            x = f.strip(sid) if st['k'] not in ('DeclStmt', 'IfStmt', 'CompoundStmt') else st
+            if x['k'] == 'DeclStmt':
+                for d in x.get('decls', []):
+                    if d.get('init') and f.line(x) >= min(f.line(decl['startIndex'][0]), f.line(decl['endIndex'][0])) - 3 and \
+                            d['name'] not in ('end', 'start', 't'):
+                        try:
+                            env[d['name']] = ev(d['init'], env)
+                        except AnalysisBroken:
+                            if d['name'] in ('startIndex', 'endIndex'):
+                                raise
+            elif x['k'] == 'IfStmt' and f.line(x) > f.line(decl['startIndex'][0]) - 3:
+                if any(y['k'] == 'DeclRefExpr' and y.get('name') in ('startIndex', 'endIndex') for y in f.walk(x['id'])):
+                    if ev(x['cond'], env):
+                        run([x['then']], env)
+                    elif x.get('else'):
+                        run([x['else']], env)
+            elif x['k'] == 'CompoundStmt':
+                run(x['ch'], env)
+            elif x['k'] == 'BinaryOperator' and x.get('op') == '=' and (f.strip(x['ch'][0]) or {}).get('name') in ('startIndex', 'endIndex'):
+                env[f.strip(x['ch'][0])['name']] = ev(x['ch'][1], env)
+
+    bad = None
+    for c1 in (False, True):
+        for c2 in (False, True):
+            env = {'c1': c1, 'c2': c2}
+            run(blk['ch'], env)
+            got = (env.get('startIndex'), env.get('endIndex'))
+            want = {(False, False): [(S, E)], (True, False): [(S, S)], (False, True): [(E, E)], (True, True): [(S, S), (E, E)]}[(c1, c2)]
+            if got not in want and bad is None:
+                bad = (c1, c2, got, want)
+    rep.add('R17j', f.name, 'snap-consistent', bad is None, f.where(decl['startIndex'][0]),
+            'all four outcomes of the two snap tests give the expected index pair' if bad is None else
+            'with snap-to-start %s and snap-to-end %s the indices are (startIndex, endIndex) = %s relative to the bracketing vertices (%d, %d); '
+            'expected %s' % (bad[0], bad[1], bad[2], S, E, ' or '.join(map(str, bad[3]))))
+
+
 def run(rep):
     F = facts.load_units(UNITS)
     rep.units.update(UNITS)
@@ -723,3 +830,4 @@ def run(rep):
     r17h(rep, F)
     r17i(rep, F)
     r17e(rep, F)
+    r17j(rep, F)
